@@ -20,7 +20,9 @@ SIG = [
 # accepts but LaTeX does not treat as a blank
 LEGACY = ['\\begin{lstlisting}', '\\end{lstlisting}', '\\begin{verbatim}', '\\end{verbatim}',
           '\\verb', '\\begin {x}', '\\end\n{x}', '\\begin{x}', '\\end{x}', '[', ']', '{', '}', '|',
-          'a', ' ', '\n', '%', '\\', '\r', '\x0c', '\xa0', '\u2028', '\\section']
+          'a', ' ', '\n', '%', '\\', '\r', '\x0c', '\xa0', '\u2028', '\\section',
+          # paragraph breaks longer than two newlines, right after a line-break macro or a heading
+          '\\\\', '\n\n\n', '\n \n']
 
 # Reduced alphabet for deeper exhaustive sweeps (one representative per token class).
 SIG_SMALL = [
